@@ -428,6 +428,9 @@ pub fn exec(c: &Case, lifecycle: bool) -> Outcome {
 
 fn main_for(args: &Args, prop: &'static str, lifecycle: bool) -> i32 {
     std::panic::set_hook(Box::new(|_| {}));
+    // a scheduling pass / stop that never returns although every task is short is a failure
+    // of "returns promptly"; the longest legitimate case takes well under 10 s
+    vkit::hang::start_monitor(prop, args.tier, args.seed, Duration::from_secs(25));
     if let Some(p) = &args.replay {
         let (_, _, case) = vkit::load_replay(p);
         return vkit::replay_verdict(prop, p, &filter(prop, exec(&serde_json::from_value(case).expect("case"), lifecycle)));
@@ -447,7 +450,14 @@ fn main_for(args: &Args, prop: &'static str, lifecycle: bool) -> i32 {
     ev.add(vkit::run_prop(
         &RunCfg { property: prop, sub: "pool", rule, seed: args.seed, cases: args.cases(200, 6_000), shards: 1, max_shrink_iters: 300 },
         move || strategy(lifecycle),
-        move |c| filter(prop, exec(c, lifecycle)),
+        move |c| {
+            vkit::hang::guard(
+                "pool",
+                &format!("{prop}/pool/call-did-not-return"),
+                || serde_json::to_string(c).unwrap_or_default(),
+                || filter(prop, exec(c, lifecycle)),
+            )
+        },
     ));
     ev.finish()
 }
